@@ -184,7 +184,7 @@ pub fn c36(args: &Args) -> i32 {
     if args.replay.is_some() {
         eprintln!("C36 replays: the class and detail text name the filter parameters / key columns and the full history; re-run ./check C36 to reproduce (the space is tiny)");
     }
-    run.set_rule("bloom leg: BloomFilter::with_params(bits in {0,1,63,64,65,128,1000}, hashes in {0,1,2,7,32,100}) and BloomFilter::new(n in {1,2,100}, p in {0.5,0.01,1e-9}) x ALL sequences up to depth L over {insert k (6 keys: ints, strings incl. empty, tuples, -0.0/null), clear}: every key inserted since the last clear must be reported by might_contain, len() counts insertions since clear. hash-index leg: key columns {[0],[1],[0,1]} x ALL histories up to depth L over {insert t, remove t (5 tuples over {1,2}^2 plus an Int32/Int64 twin), build_from_tuples S (4 sets incl. empty and duplicates)}: after every step get/get_with_bloom/probe for every domain key and an absent key return exactly the stored multiset with that key, might_contain_key is true for every stored key, len() equals the stored count, remove() reports presence. non-trivial = histories that store at least one key; states = distinct (model multiset, depth)");
+    run.set_rule("bloom leg: BloomFilter::with_params(bits in {0,1,63,64,65,128,1000}, hashes in {0,1,2,7,32,100}) and BloomFilter::new(n in {1,2,100}, p in {0.5,0.01,1e-9}) x ALL sequences up to depth L over {insert k (6 keys: ints, strings incl. empty, tuples, -0.0/null), clear}: every key inserted since the last clear must be reported by might_contain, len() counts insertions since clear. hash-index leg: key columns {[0],[1],[0,1]} x ALL histories up to depth L over {insert t, remove t (5 tuples over {1,2}^2 plus an Int32/Int64 twin), build_from_tuples S (4 sets incl. empty and duplicates)}: after every step get/get_with_bloom/probe for every domain key and an absent key return exactly the stored multiset with that key, might_contain_key is true for every stored key, len() equals the stored count, remove() reports presence. long-history leg: 5 expected_keys settings x {insert only, inserts with removals and one rebuild}, 1500 (thorough 6000) distinct keys one by one, the new key checked through every Bloom-guarded path after EVERY step and all live keys every 50 steps. non-trivial = histories that store at least one key; states = distinct (model multiset, depth)");
     let keys = bloom_keys();
     let mut filters: Vec<(String, Filt)> = vec![];
     for b in [0usize, 1, 63, 64, 65, 128, 1000] {
@@ -302,5 +302,80 @@ pub fn c36(args: &Args) -> i32 {
     run.put("states", json!(states.lock().unwrap().len()));
     run.put("transitions", json!(transitions));
     run.put("traces_validated_against_impl", json!(traces));
+    long_history_leg(&run);
     run.finish()
+}
+
+/// Long-history leg: capacity is where a probabilistic index can start to lose keys (filters sized for an expected
+/// number of keys, rebuilds, resizes). One deterministic history per (expected_keys, pattern): N distinct keys are
+/// inserted one by one (pattern "mixed" also removes every third key again and rebuilds once); after EVERY step
+/// the key just inserted must be found through every Bloom-guarded path, and at every 50th step all live keys are
+/// probed. Every prefix length up to N is therefore checked.
+fn long_history_leg(run: &Run) {
+    let n: i64 = if run.quick() { 1500 } else { 6000 };
+    let mut steps = 0u64;
+    for expected in [0usize, 1, 4, 100, 1000] {
+        for pattern in ["insert_only", "mixed"] {
+            let mut idx = HashIndex::new(JoinKeySpec::new("r", vec![0]), expected);
+            let mut bloom = BloomFilter::new(expected.max(1), 0.01);
+            let mut live: Vec<i64> = vec![];
+            let key = |k: i64| Tuple::new(vec![Value::Int64(k)]);
+            let row = |k: i64| Tuple::new(vec![Value::Int64(k), Value::Int64(k % 7)]);
+            let mut bad: Option<String> = None;
+            for k in 0..n {
+                steps += 1;
+                run.evaluations.fetch_add(1, std::sync::atomic::Ordering::Relaxed);
+                idx.insert(row(k));
+                bloom.insert(&key(k));
+                live.push(k);
+                if pattern == "mixed" && k % 3 == 2 {
+                    let victim = live.remove(live.len() / 2);
+                    if !idx.remove(&row(victim)) {
+                        bad = Some(format!("step {k}: remove({victim}) reports the tuple absent"));
+                        break;
+                    }
+                }
+                if pattern == "mixed" && k == n / 2 {
+                    idx.build_from_tuples(live.iter().map(|x| row(*x)));
+                }
+                let check = |x: i64| -> Option<String> {
+                    if !idx.might_contain_key(&key(x)) {
+                        return Some(format!("might_contain_key({x}) is false for a live key"));
+                    }
+                    if idx.get_with_bloom(&key(x)).map(|v| v.len()) != Some(1) {
+                        return Some(format!("get_with_bloom({x}) does not return the stored tuple (get: {:?})", idx.get(&key(x)).map(|v| v.len())));
+                    }
+                    if idx.probe(&key(x)).count() != 1 {
+                        return Some(format!("probe({x}) returns {} tuples (get: {:?})", idx.probe(&key(x)).count(), idx.get(&key(x)).map(|v| v.len())));
+                    }
+                    None
+                };
+                if live.contains(&k) {
+                    if let Some(e) = check(k) {
+                        bad = Some(format!("step {k} (insert #{}): {e}", k + 1));
+                        break;
+                    }
+                }
+                if !bloom.might_contain(&key(k)) {
+                    bad = Some(format!("step {k}: BloomFilter::new({}, 0.01) reports inserted key {k} as absent", expected.max(1)));
+                    break;
+                }
+                if k % 50 == 49 {
+                    if let Some(e) = live.iter().find_map(|x| check(*x)) {
+                        bad = Some(format!("step {k}: {e}"));
+                        break;
+                    }
+                    if idx.len() != live.len() {
+                        bad = Some(format!("step {k}: len() = {} but {} tuples are stored", idx.len(), live.len()));
+                        break;
+                    }
+                }
+            }
+            if let Some(d) = bad {
+                run.violation(&format!("long_history:{pattern}:live_key_not_found"), json!({"leg": "long_history", "expected_keys": expected, "pattern": pattern}), format!("HashIndex::new(key [0], expected_keys {expected}), pattern {pattern}, keys 0..{n} inserted one by one: {d}"));
+            }
+        }
+    }
+    run.put("long_history_steps", json!(steps));
+
 }
